@@ -23,6 +23,9 @@
 (* (the code as it is); "on_success" - only when fetching succeeded (a     *)
 (* tempting rewrite of the deferred call).                                 *)
 (*                                                                         *)
+(* A second piece of process state is the configuration object that every  *)
+(* regeneration loads the manifest into (ConfigPolicy).                    *)
+(*                                                                         *)
 (* Converges: once edits have stopped, nothing is pending and the package  *)
 (* is valid, the output is the generation of the final contents of main.   *)
 (* hist records the edits and whether the watcher had settled before each  *)
@@ -30,16 +33,26 @@
 (***************************************************************************)
 EXTENDS Naturals, Sequences, FiniteSets, TLC, Json
 
-CONSTANTS MaxEdits, RestorePolicy
+CONSTANTS MaxEdits, RestorePolicy,
+          ConfigPolicy      \* "fresh": every regeneration takes its targets from the manifest it has just read (a one-shot run does);
+                            \* "accumulated": keys of manifests read earlier in the process stay in force (the code as found: one
+                            \*                package-level configuration object that every regeneration loads into)
 
 Faults == {"model_error", "main_fetch_error", "nested_fetch_error", "nested_manifest_error"}
 Wrong == 99                \* what is on disk after a regeneration that read some other directory as the package
 
-VARIABLES broken, content, edits, pending, cwd, pc, dir, saved, snap, out, hist
-vars == <<broken, content, edits, pending, cwd, pc, dir, saved, snap, out, hist>>
+VARIABLES broken, content, edits, pending, cwd, pc, dir, saved, snap, out, hist,
+          json,       \* does the manifest (still) configure the JSON target
+          loaded,     \* has any manifest read by this process configured it
+          snapj,      \* does the running regeneration write it
+          outj,       \* the contents version its output holds
+          dropAt      \* the contents version when the target was taken out of the manifest
+vars == <<broken, content, edits, pending, cwd, pc, dir, saved, snap, out, hist, json, loaded, snapj, outj, dropAt>>
+cfgvars == <<json, loaded, snapj, outj, dropAt>>
 
 Init == /\ broken = {} /\ content = 0 /\ edits = 0 /\ pending = TRUE     \* the generation at start-up
         /\ cwd = "main" /\ pc = "idle" /\ dir = "main" /\ saved = "main" /\ snap = 0 /\ out = 0 /\ hist = <<>>
+        /\ json = TRUE /\ loaded = FALSE /\ snapj = FALSE /\ outj = 0 /\ dropAt = 0
 
 Settled == pc = "idle" /\ ~pending
 
@@ -47,61 +60,71 @@ Note(kind) == hist' = Append(hist, [kind |-> kind, settled |-> Settled])
 
 Break(f) == /\ edits < MaxEdits /\ f \notin broken
             /\ broken' = broken \cup {f} /\ edits' = edits + 1 /\ pending' = TRUE /\ Note(f)
-            /\ UNCHANGED <<content, cwd, pc, dir, saved, snap, out>>
+            /\ UNCHANGED <<content, cwd, pc, dir, saved, snap, out>> /\ UNCHANGED cfgvars
 Repair == /\ edits < MaxEdits /\ broken # {}
           /\ broken' = {} /\ content' = content + 1 /\ edits' = edits + 1 /\ pending' = TRUE /\ Note("repair")
-          /\ UNCHANGED <<cwd, pc, dir, saved, snap, out>>
+          /\ UNCHANGED <<cwd, pc, dir, saved, snap, out>> /\ UNCHANGED cfgvars
 Save == /\ edits < MaxEdits /\ broken = {}
         /\ content' = content + 1 /\ edits' = edits + 1 /\ pending' = TRUE /\ Note("save")
-        /\ UNCHANGED <<broken, cwd, pc, dir, saved, snap, out>>
+        /\ UNCHANGED <<broken, cwd, pc, dir, saved, snap, out>> /\ UNCHANGED cfgvars
+\* the JSON target's section is deleted from the manifest of main (a valid edit: the package just has one target less)
+DropJson == /\ edits < MaxEdits /\ broken = {} /\ json
+            /\ json' = FALSE /\ dropAt' = content /\ edits' = edits + 1 /\ pending' = TRUE /\ Note("drop_json")
+            /\ UNCHANGED <<broken, content, cwd, pc, dir, saved, snap, out, loaded, snapj, outj>>
 
-Keep == UNCHANGED <<broken, content, edits, hist>>
+Keep == UNCHANGED <<broken, content, edits, hist, json, dropAt>>
 
 \* generateInWatchMode -> generateImpl: the input directory is the process' working directory
 Start == /\ pc = "idle" /\ pending /\ pending' = FALSE /\ dir' = cwd /\ pc' = "load"
-         /\ Keep /\ UNCHANGED <<cwd, saved, snap, out>>
+         /\ Keep /\ UNCHANGED <<cwd, saved, snap, out, loaded, snapj, outj>>
 
 \* LoadPackage(dir): manifests of the closure; a regeneration that starts in another directory treats that one as the package
 Load == /\ pc = "load"
         /\ IF dir # "main" THEN pc' = "write_wrong"
            ELSE IF "nested_manifest_error" \in broken THEN pc' = "idle"
            ELSE pc' = "fetch_main"
-        /\ Keep /\ UNCHANGED <<pending, cwd, dir, saved, snap, out>>
+        /\ Keep /\ UNCHANGED <<pending, cwd, dir, saved, snap, out, loaded, snapj, outj>>
 
 Restore(failed) == IF failed /\ RestorePolicy = "on_success" THEN UNCHANGED cwd ELSE cwd' = saved
 
 \* fetchAndCachePackages(main): Getwd, Chdir(main), fetch, (restore)
 FetchMainEnter == /\ pc = "fetch_main" /\ saved' = cwd /\ cwd' = "main" /\ pc' = "fetch_main_in"
-                  /\ Keep /\ UNCHANGED <<pending, dir, snap, out>>
+                  /\ Keep /\ UNCHANGED <<pending, dir, snap, out, loaded, snapj, outj>>
 FetchMainLeave == /\ pc = "fetch_main_in"
                   /\ LET failed == "main_fetch_error" \in broken IN
                      /\ Restore(failed) /\ pc' = IF failed THEN "idle" ELSE "fetch_nested"
-                  /\ Keep /\ UNCHANGED <<pending, dir, saved, snap, out>>
+                  /\ Keep /\ UNCHANGED <<pending, dir, saved, snap, out, loaded, snapj, outj>>
 \* ... and the same for the nested package's own imports, inside its directory
 FetchNestedEnter == /\ pc = "fetch_nested" /\ saved' = cwd /\ cwd' = "nested" /\ pc' = "fetch_nested_in"
-                    /\ Keep /\ UNCHANGED <<pending, dir, snap, out>>
+                    /\ Keep /\ UNCHANGED <<pending, dir, snap, out, loaded, snapj, outj>>
 FetchNestedLeave == /\ pc = "fetch_nested_in"
                     /\ LET failed == "nested_fetch_error" \in broken IN
                        /\ Restore(failed) /\ pc' = IF failed THEN "idle" ELSE "validate"
-                    /\ Keep /\ UNCHANGED <<pending, dir, saved, snap, out>>
+                    /\ Keep /\ UNCHANGED <<pending, dir, saved, snap, out, loaded, snapj, outj>>
 
+\* updatePackageInfoFromArgs: the manifest goes into the configuration object, the targets come out of it
 Validate == /\ pc = "validate"
+            /\ loaded' = (loaded \/ json)
+            /\ snapj' = IF ConfigPolicy = "fresh" THEN json ELSE (loaded \/ json)
             /\ IF "model_error" \in broken THEN pc' = "idle" /\ UNCHANGED snap ELSE pc' = "write" /\ snap' = content
-            /\ Keep /\ UNCHANGED <<pending, cwd, dir, saved, out>>
+            /\ Keep /\ UNCHANGED <<pending, cwd, dir, saved, out, outj>>
 Write == /\ pc = "write" /\ out' = snap /\ pc' = "idle"
-         /\ Keep /\ UNCHANGED <<pending, cwd, dir, saved, snap>>
+         /\ outj' = IF snapj THEN snap ELSE outj
+         /\ Keep /\ UNCHANGED <<pending, cwd, dir, saved, snap, loaded, snapj>>
 WriteWrong == /\ pc = "write_wrong" /\ out' = Wrong /\ pc' = "idle"
-              /\ Keep /\ UNCHANGED <<pending, cwd, dir, saved, snap>>
+              /\ Keep /\ UNCHANGED <<pending, cwd, dir, saved, snap, loaded, snapj, outj>>
 
-Next == (\E f \in Faults : Break(f)) \/ Repair \/ Save
+Next == (\E f \in Faults : Break(f)) \/ Repair \/ Save \/ DropJson
         \/ Start \/ Load \/ FetchMainEnter \/ FetchMainLeave \/ FetchNestedEnter \/ FetchNestedLeave \/ Validate \/ Write \/ WriteWrong
 Spec == Init /\ [][Next]_vars
 
 Quiescent == edits = MaxEdits /\ Settled
-Converges == (Quiescent /\ broken = {}) => out = content
+Converges == (Quiescent /\ broken = {}) => out = content /\ (json => outj = content)
+\* a target that the manifest no longer configures is not written any more (a one-shot run of the final contents would not touch it)
+UnconfiguredUntouched == ~json => outj <= dropAt
 \* the process is back where it started whenever no regeneration is running
 AtHomeWhenIdle == pc = "idle" => cwd = "main"
 
 ExportSchedules == (Quiescent /\ broken = {}) => PrintT(<<"CASE", ToJson([hist |-> hist, converged |-> (out = content)])>>)
-View == <<broken, content, edits, pending, cwd, pc, dir, saved, snap, out, [i \in 1..Len(hist) |-> hist[i].settled]>>
+View == <<broken, content, edits, pending, cwd, pc, dir, saved, snap, out, json, loaded, snapj, outj, dropAt, [i \in 1..Len(hist) |-> hist[i].settled]>>
 =============================================================================
